@@ -15,6 +15,8 @@ Definition schema_exceptions : list (string * Z) := [("QuantizeLinear", 19)].
 
 (* operators for which no adapter is registered at any version: the conversion loop only re-stamps them *)
 Definition q_std : string -> bool := no_adapter registry_keys.
+(* ... and operators with no adapter at any version >= lo: a node already past its adapter version (DFT at 20, ...) *)
+Definition q_from (lo : Z) : string -> bool := no_adapter_from registry_keys lo.
 
 (* QuantizeLinear(x : int32, y_scale : float, y_zero_point : uint8) -> uint8: opset 13..18 lets x and y_scale differ
    (T1 / tensor(float)); opset 19..22 binds both to T1; opset 23 separates them again *)
